@@ -796,6 +796,35 @@ func (e *Engine) tryStub(name string, fn *ssa.Function, args []Value, g *Term, p
 			return TupleV{[]Value{sv, IfaceV{}}}, true
 		}
 		return sv, true
+	case "github.com/obolnetwork/charon/core.cloneSSZMarshaler", "github.com/obolnetwork/charon/core.cloneJSONMarshaler":
+		// serialise + deserialise = structural deep copy of the source value into the target (same contract as the
+		// Clone() stubs; the serialisation libraries themselves are not the subject of any check)
+		in, ok1 := args[0].(IfaceV)
+		out, ok2 := args[1].(IfaceV)
+		if !ok1 || !ok2 || len(in.alts) != 1 || len(out.alts) != 1 {
+			return nil, false
+		}
+		outPtr, ok := out.alts[0].typ.(*types.Pointer)
+		if !ok {
+			return nil, false
+		}
+		src := in.alts[0].v
+		srcT := in.alts[0].typ
+		if pt, isPtr := srcT.(*types.Pointer); isPtr {
+			r, ok := src.(RefV)
+			if !ok {
+				return nil, false
+			}
+			e.panicVC("clone of a nil pointer", pos, And(g, nilness(src)))
+			src = e.loadOr(r)
+			srcT = pt.Elem()
+		}
+		if !types.Identical(srcT, outPtr.Elem()) {
+			return nil, false
+		}
+		e.StubsUsed[name+" (structural deep copy)"]++
+		e.store(out.alts[0].v, g, e.deepCopy(src, 0), pos)
+		return IfaceV{}, true
 	case "github.com/obolnetwork/charon/core/consensus/qbft.hashProto":
 		// deterministic marshalling + SSZ merkleization = ideal injective hash of the message's full field tuple
 		e.StubsUsed[name+" (ideal injective hash of all fields)"]++
